@@ -621,7 +621,8 @@ def status_typestate(db, cx, rule, eff):
 
 
 
-def prestep_scratch_reset(db, cx, rule):
+def prestep_scratch_reset(db, cx, rule, meths=("reset_energy_deposition", "secondaries", "element"),
+                          step_limit=True):
     """K1: PreStepExecutor resets the per-step physics scratch (deposition, secondaries,
     sampled element) on every path of a non-inactive slot - including tracks that enter the
     step already errored, which the tracking cut still deposits for."""
@@ -633,7 +634,7 @@ def prestep_scratch_reset(db, cx, rule):
         br = brs[0]
         c = f.blocks[br]["cond"]
         tgt = f.blocks[br]["succ"][f.cond_polarity_edge(br, c["op"] != "==")]
-        for meth in ("reset_energy_deposition", "secondaries", "element"):
+        for meth in meths:
             okp, path = f.must_pass(
                 lambda e, m=meth: e["e"] == "call" and e["callee"] == C + "PhysicsStepView::" + m
                 and (m == "reset_energy_deposition" or len(e.get("args", [])) == 1),
@@ -645,7 +646,7 @@ def prestep_scratch_reset(db, cx, rule):
                       "makes results depend on history")
         # macro_xs: calc_physics_step_limit must run for every non-errored active track
         ebr = f.branch_blocks(lambda c, _b: c.get("renum", "").endswith("TrackStatus::errored"))
-        if ebr:
+        if ebr and step_limit:
             c2 = f.blocks[ebr[0]]["cond"]
             t2 = f.blocks[ebr[0]]["succ"][f.cond_polarity_edge(ebr[0], c2["op"] != "==")]
             okp, path = f.must_pass(lambda e: e["e"] == "call" and e["callee"] == C + "calc_physics_step_limit",
